@@ -682,9 +682,11 @@ def _localise(module, name, iargs, ib):
             return ({"op": op.name, "pred": pred, "ty": ty, "kind": kind, "diag": diag, "input_form": form},
                     f"first divergent op: {op.name} {pred_name(op.name, pred)} : {ty} on {args!r} -> {g!r}, "
                     f"MLIR semantics bit pattern {x!r}")
-    if crashed is None:
+    if crashed is None or tr.pending is None:
         ctl = _localise_control(module, name, iargs, ib, tr)
         if ctl is not None:
+            if crashed is not None:
+                ctl[0]["kind"] = "crash:" + type(crashed).__name__
             return ctl
     if crashed is not None and tr.pending is not None:
         op = tr.pending[0]
@@ -723,7 +725,7 @@ def _localise_control(module, name, iargs, ib, tr):
         if k == 0:
             return "func.func"
         prev = itrace[k - 1][0]
-        if prev.name.startswith("cf.") or prev.name == "func.call":
+        if prev.name.startswith("cf.") or prev.name == "func.call" or prev.regions:
             return prev.name
         par = prev.parent_op()
         return par.name if par is not None else prev.name
@@ -818,7 +820,7 @@ def run_program(h, recipe, label):
 def replay(h, recipe):
     _init()
     with quiet():
-        if recipe.get("kind") == "program":
+        if "funcs" in recipe:
             run_program(h, recipe, "replay")
         else:
             run_op_recipe(h, recipe, "replay")
